@@ -70,6 +70,11 @@ def cases(tier, rng):
             newpit = rng.choice(nonpit)
             ds2 = list(ds); ds2[newpit] = newpit
             yield {"k": 404, "args": [ds2, nets.topo_order(ds2), [1] * n], "call": {"api": api, "ds0": ds, "newpit": newpit}, "group": f"rand-{api}"}
+        elif api == "vector_uparea":
+            # the 1-D class with and without user node areas, memoising or not (round-3 seed: areas dropped with cache=False)
+            w = [rng.randint(1, 9) for _ in range(n)] if rng.random() < 0.7 else None
+            yield {"k": 404, "args": [ds, sq, w or [1] * n], "call": {"api": api, "area": w is not None, "cache": rng.randrange(2)},
+                   "group": f"rand-{api}" + ("-area" if w else "")}
         else:
             yield {"k": 404, "args": [ds, sq, [1] * n], "call": {"api": api}, "group": f"rand-{api}"}
 
@@ -104,7 +109,7 @@ def impl(case):
         st, v = call_impl(flw.accuflux, data, nodata=a[3][0], direction="down" if "down" in api else "up")
         if not np.array_equal(before, data):
             return [[-4], ["input mutated"]]
-        if st == "ok" and (v.shape != (1, n) or v.dtype != dt):
+        if st == "ok" and (v.shape != flw.shape or v.dtype != dt):
             return [[-3], [str(v.dtype)]]
         return outl(st, v)
     if api == "uparea_after_add_pits":
@@ -126,7 +131,10 @@ def impl(case):
         flw = make_raster(ds)
         return outl(*call_impl(flw.upstream_area, "cell"))
     if api == "vector_uparea":
-        flw = make_vector(ds)
+        kwv = {"cache": bool(call.get("cache", 1))}
+        if call.get("area"):
+            kwv["area"] = np.array(a[2], dtype=np.float32)
+        flw = make_vector(ds, **kwv)
         return outl(*call_impl(flw.upstream_area))
     if api == "kernel_uparea":
         tr = Affine(call["xres"], 0.0, 0.0, 0.0, call["yres"], 0.0)
